@@ -141,6 +141,7 @@ void e3_run(e3_stats *out) {
             double now = vf_now_s();
             if (c->deadline_s > 0 && now - t0 > c->deadline_s) { out->fixpoint = 0; out->cap = "deadline"; break; }
             if (vf_violation_events && now - vf_first_violation_t > VF_GRACE_AFTER_VIOLATION_S) { out->fixpoint = 0; out->cap = "stopped-after-violation"; break; }
+            if ((si & 1023) == 0 && vf_mem_exceeded()) { out->fixpoint = 0; out->cap = "memory"; break; }
         }
         for (int ev = 0; ev < c->nev; ev++) {
             vf_snap *ns[E3_MAXW] = {0};
